@@ -39,6 +39,7 @@ package spec
 //@   modifies table.productions.table.dom, table.productions.table.val, table.productions.table.vals
 //@   modifies table.strings.table.dom, table.strings.table.val, table.strings.table.vals
 //@   modifies all(terminalEntry.occurrences), all(terminalEntry.definitions), all(nonTerminalEntry.occurrences), all(productionEntry.occurrences)
+//@   modifies all(stringsEntry.Opt), all(stringsEntry.Group), all(stringsEntry.Star), all(stringsEntry.Plus)
 //@   ensures @inv tableOK(table) && sameTables(table) && errs != nil && errs.n >= 0
 // ---- C07: declarations of terminals (productions 9-11, 33, 34) and the final verdict (production 0) ----
 //@   ensures @errs-kept errs == old(errs) && errs.n >= old(errs.n)
@@ -198,27 +199,32 @@ package spec
 
 //@ func (t *SymbolTable) mapStringToNoneTerminal(s Strings, suffix string) grammar.NonTerminal
 //@   requires tableOK(t)
+//@   ensures @named result != ""
 //@   modifies t.strings
 //@   ensures tableOK(t) && sameTables(t)
 
 //@ func (t *SymbolTable) GetOpt(s Strings) grammar.NonTerminal
 //@   requires tableOK(t)
-//@   modifies t.strings, t.strings.table.dom, t.strings.table.val, t.strings.table.vals
+//@   ensures @named result != ""
+//@   modifies t.strings, t.strings.table.dom, t.strings.table.val, t.strings.table.vals, all(stringsEntry.Opt)
 //@   ensures tableOK(t) && sameTables(t)
 
 //@ func (t *SymbolTable) GetGroup(s Strings) grammar.NonTerminal
 //@   requires tableOK(t)
-//@   modifies t.strings, t.strings.table.dom, t.strings.table.val, t.strings.table.vals
+//@   ensures @named result != ""
+//@   modifies t.strings, t.strings.table.dom, t.strings.table.val, t.strings.table.vals, all(stringsEntry.Group)
 //@   ensures tableOK(t) && sameTables(t)
 
 //@ func (t *SymbolTable) GetStar(s Strings) grammar.NonTerminal
 //@   requires tableOK(t)
-//@   modifies t.strings, t.strings.table.dom, t.strings.table.val, t.strings.table.vals
+//@   ensures @named result != ""
+//@   modifies t.strings, t.strings.table.dom, t.strings.table.val, t.strings.table.vals, all(stringsEntry.Star)
 //@   ensures tableOK(t) && sameTables(t)
 
 //@ func (t *SymbolTable) GetPlus(s Strings) grammar.NonTerminal
 //@   requires tableOK(t)
-//@   modifies t.strings, t.strings.table.dom, t.strings.table.val, t.strings.table.vals
+//@   ensures @named result != ""
+//@   modifies t.strings, t.strings.table.dom, t.strings.table.val, t.strings.table.vals, all(stringsEntry.Plus)
 //@   ensures tableOK(t) && sameTables(t)
 
 // A-EQ: grammar.EqTerminal and grammar.EqNonTerminal are generic.NewEqualFunc[T](), i.e. Go's == (read off the
